@@ -116,6 +116,14 @@ def match_known(pid, v, known):
 
 # ---------------------------------------------------------------- driver
 
+def with_prof(line, prof):
+    """the line as given to model and harness for one profile: unique id, explicit prof="""
+    t = line.split(" ", 2)
+    rest = t[2] if len(t) > 2 else ""
+    hdr, _, body = rest.partition("::")
+    toks = [x for x in hdr.split() if not x.startswith("prof=")]
+    return "H %s.%s %s prof=%s ::%s" % (t[1], prof, " ".join(toks), prof, body)
+
 def run(ctx, P, cs):
     pid = ctx.pid
     t0 = time.time()
@@ -128,58 +136,86 @@ def run(ctx, P, cs):
         viol.append({"tag": "harness_build", "kind": "harness does not build against /repo",
                      "detail": (blog["d"] or blog["r"])[:3000], "classes": []})
         return {"violations": viol, "coverage": {"harness_build": "failed"}}
-    import streams
-    hs = streams.histories_for(ctx, P)           # list of history lines
+    import streams, model
+    hs = streams.histories_for(ctx, P)
     seen, lines = set(), []
     for l in hs:
-        if l not in seen:
-            seen.add(l)
+        key = l.split(" ", 2)[2] if l.count(" ") >= 2 else l
+        if key not in seen:
+            seen.add(key)
             lines.append(l)
-    nruns, nontrivial, ops_hist, fate_hist, samples = 0, set(), {}, {}, []
-    batch = {"d": [], "r": []}
-    child = []
+    # one run per (history, profile)
+    jobs = []
     for l in lines:
-        h = hrun.header(l)
-        for prof in h.get("prof", "d"):
-            if h.get("child") == "1":
-                child.append((prof, l))
-            else:
-                batch[prof].append(l)
-    results = []   # (prof, line, res)
+        for prof in hrun.header(l).get("prof", P.get("profiles", "d")):
+            if prof in "dr":
+                jobs.append((prof, l, with_prof(l, prof)))
+    # model first: its verdict decides how the implementation is run
+    mbin, mb = model.build()
+    mtr = {}
+    minfo = {"status": "ok"}
+    if mbin:
+        mtr = model.run_model(mbin, [j[2] for j in jobs])
+    else:
+        minfo = {"status": "model does not build", "errors": (mb or {}).get("errors") or (mb or {}).get("log", "")[-1500:]}
+        cs["failed"].append({"what": "model", "detail": "the executable model (Extract.vo / OCaml driver) does not build: %s" % str(minfo["errors"])[:1500]})
+    batch, child = {"d": [], "r": []}, []
+    for prof, l, pl in jobs:
+        fo = model.fatal_outcome(mtr.get(hrun.hid(pl), []))
+        if hrun.header(l).get("child") == "1" or fo is not None or P.get("child"):
+            child.append((prof, l, pl))
+        else:
+            batch[prof].append((l, pl))
+    results = []
     for prof in ("d", "r"):
         if batch[prof]:
-            r = hrun.run_batch(bins[prof], batch[prof])
-            for l in batch[prof]:
-                if hrun.hid(l) in r:
-                    results.append((prof, l, r[hrun.hid(l)]))
-    for prof, l in child:
-        results.append((prof, l, hrun.run_child(bins[prof], l)))
-    # model side + comparison
-    import model
-    mres = model.compare(ctx, P, results)
-    for prof, l, res in results:
+            r = hrun.run_batch(bins[prof], [pl for _, pl in batch[prof]])
+            for l, pl in batch[prof]:
+                if hrun.hid(pl) in r:
+                    results.append((prof, l, pl, r[hrun.hid(pl)]))
+    for prof, l, pl in child:
+        results.append((prof, l, pl, hrun.run_child(bins[prof], pl, timeout=P.get("child_timeout", 20))))
+    nruns, nontrivial, ops_hist, fate_hist, out_hist, samples = 0, set(), {}, {}, {}, []
+    compared, lines_compared = 0, 0
+    mism = []
+    for prof, l, pl, res in results:
         nruns += 1
         fate_hist[res["fate"]] = fate_hist.get(res["fate"], 0) + 1
         body = l.split("::", 1)[1]
         opsn = [o.split()[0] for o in body.split(";") if o.split()]
         for o in opsn:
             ops_hist[o] = ops_hist.get(o, 0) + 1
+        for tl in res["lines"]:
+            pp = hrun.parse_line(tl)
+            if pp:
+                out_hist[pp["out"]] = out_hist.get(pp["out"], 0) + 1
         if len(opsn) >= 2:
-            nontrivial.add(l.split(" ", 2)[2] if l.count(" ") >= 2 else l)
+            nontrivial.add(body.strip() + "|" + hrun.header(l).get("cls", "") + prof)
         vs = judge(pid, l, res)
-        if vs:
-            viol.append({"tag": "monitor_" + hrun.hid(l), "kind": "implementation-side monitor", "profile": prof,
-                         "history": l, "verdicts": vs, "fate": res["fate"], "trace": res["lines"][-12:],
-                         "classes": sorted(finding_class(pid, l)),
-                         "replay_cmd": "%s one '%s'" % (bins[prof], l)})
-    for mv in mres.get("violations", []):
-        viol.append(mv)
-    for prof, l, res in results[:3]:
-        samples.append({"history": l, "profile": prof, "fate": res["fate"], "trace_tail": res["lines"][-3:]})
+        classes = sorted(finding_class(pid, l))
+        mm = None
+        if mbin and hrun.hid(pl) in mtr:
+            nl, mm = model.compare_one(pid, pl, mtr[hrun.hid(pl)], res)
+            compared += 1
+            lines_compared += nl
+        if vs or (mm and mm.get("model_fatal")):
+            viol.append({"tag": "monitor_" + hrun.hid(l) + prof, "kind": "property fails on the implementation" if vs else "the model reaches undefined behaviour / a hang on this history",
+                         "profile": prof, "history": l, "verdicts": vs, "fate": res["fate"], "mismatch": mm,
+                         "impl_trace": res["lines"][-10:], "model_trace": mtr.get(hrun.hid(pl), [])[-10:], "classes": classes,
+                         "replay_cmd": "%s one '%s'" % (bins[prof], pl)})
+        elif mm:
+            mism.append({"tag": "corr_" + hrun.hid(l) + prof, "kind": "correspondence: model and implementation differ",
+                         "profile": prof, "history": l, "mismatch": mm, "fate": res["fate"], "classes": classes,
+                         "impl_trace": res["lines"][-10:], "model_trace": mtr.get(hrun.hid(pl), [])[-10:],
+                         "replay_cmd": "%s one '%s'" % (bins[prof], pl), "no_failing_input": True})
+    for prof, l, pl, res in results[:2] + results[-2:]:
+        samples.append({"history": l, "profile": prof, "fate": res["fate"], "trace_tail": res["lines"][-2:]})
     cov = {"evaluations": nruns, "distinct_nontrivial": len(nontrivial),
-           "rule": "histories = committed corpus (runs first) + seeded generator stream of this property; "
-                   "distinct by canonical text after the id; non-trivial = at least two operations",
-           "traces_validated_against_impl": mres.get("compared", 0),
-           "operation_histogram": ops_hist, "fate_histogram": fate_hist, "samples": samples,
-           "model": mres.get("info", {}), "impl_wall_s": round(time.time() - t0, 1)}
-    return {"violations": viol, "coverage": cov}
+           "rule": "histories = committed corpus (runs first) + seeded generator stream of this property (85+% valid "
+                   "operations, separate malformed arguments, all six storage states, 12 element classes); each runs on the "
+                   "real crate under the checking allocator and on the extracted Coq machine, traces compared line by line "
+                   "in this property's projection; distinct by canonical text (operations, class, profile); non-trivial = at least two operations",
+           "traces_validated_against_impl": compared, "trace_lines_compared": lines_compared,
+           "operation_histogram": ops_hist, "outcome_histogram": out_hist, "fate_histogram": fate_hist, "samples": samples,
+           "model": minfo, "correspondence_mismatches": len(mism), "impl_wall_s": round(time.time() - t0, 1)}
+    return {"violations": viol, "mismatches": mism, "coverage": cov}
